@@ -244,9 +244,11 @@ DropRS(rs, s) ==
 LastTokIdx(s) == CHOOSE i \in DOMAIN issued : issued[i].s = s /\ \A j \in DOMAIN issued : issued[j].s = s => j <= i
 \* Executor::drop wakes every active task and drains the queue: every future that is still alive is dropped
 LiveFuts(s) == IF IsExec(s) THEN {f \in DOMAIN handles[s].futs : handles[s].futs[f].st \in {"queued", "parked"}} ELSE {}
-FutDropEvs(s) == LET Srt == SetToSortSeq(LiveFuts(s), LAMBDA a, b : a < b)
+FutDropEvs(s) == IF "exec_leaks_futures" \in Variants THEN <<>> ELSE
+                 LET Srt == SetToSortSeq(LiveFuts(s), LAMBDA a, b : a < b)
                  IN [i \in DOMAIN Srt |-> [e |-> "fdrop", s |-> s, f |-> Srt[i]]]
-DropFuts(h) == [h EXCEPT !.runq = <<>>,
+DropFuts(h) == IF "exec_leaks_futures" \in Variants THEN h ELSE
+               [h EXCEPT !.runq = <<>>,
                          !.futs = [f \in DOMAIN @ |-> IF @[f].st \in {"queued", "parked"} THEN [@[f] EXCEPT !.st = "dropped"] ELSE @[f]]]
 HandlesAfterDrop(s, dies) == IF dies /\ IsExec(s) THEN [handles EXCEPT ![s] = DropFuts(@)] ELSE handles
 
@@ -696,7 +698,8 @@ ProcessBegin ==
                                      \o <<[e |-> "cb", s |-> s, sub |-> 0, p |-> run.v, k |-> cbCount.cb[s], us |-> Us]>>)
                         ELSE /\ pc' = "post" /\ dsp' = [dsp EXCEPT !.ev = <<0, 0, 0>>, !.act = "continue"]
                              \* stopped for the batch limit: the executor pings itself
-                             /\ pingCnt' = [pingCnt EXCEPT ![s] = IF run.what = "limit" THEN 1 ELSE 0] /\ cbCount' = cbCount
+                             /\ pingCnt' = [pingCnt EXCEPT ![s] = IF run.what = "limit" /\ "exec_no_rearm" \notin Variants THEN 1 ELSE 0]
+                             /\ cbCount' = cbCount
                              /\ Emit(<<PeEv(s)>> \o run.evs \o <<[e |-> "peret", s |-> s, act |-> "continue", us |-> Us]>>)
         ELSE IF KindOf(s) = "chan"
         THEN \* drain the eventfd, then the channel's loop: the first try_recv
@@ -775,7 +778,8 @@ ExecCallbackEnd ==
                 /\ pingCnt' = pingCnt /\ cbCount' = [cbCount EXCEPT !.cb[s] = @ + 1]
                 /\ Emit(<<cbret>> \o run.evs \o <<[e |-> "cb", s |-> s, sub |-> 0, p |-> run.v, k |-> cbCount.cb[s], us |-> Us]>>)
            ELSE /\ pc' = "post" /\ dsp' = [dsp EXCEPT !.ops = 0, !.act = "continue"]
-                /\ pingCnt' = [pingCnt EXCEPT ![s] = IF run.what = "limit" THEN (IF @ < 2 THEN @ + 1 ELSE @) ELSE @]
+                /\ pingCnt' = [pingCnt EXCEPT ![s] = IF run.what = "limit" /\ "exec_no_rearm" \notin Variants
+                                                      THEN (IF @ < 2 THEN @ + 1 ELSE @) ELSE @]
                 /\ cbCount' = cbCount
                 /\ Emit(<<cbret>> \o run.evs \o <<[e |-> "peret", s |-> s, act |-> "continue", us |-> Us]>>)
 
